@@ -495,6 +495,37 @@ class Body:
                 ls.add(t["dest"]["l"])
         return ls
 
+    def loop_readonly(self, h):
+        """True when nothing in the loop can write memory other than the loop's own locals: no store through a
+        pointer, no call that is handed a `&mut` (other than stepping an iterator) or a closure capturing by `&mut`"""
+        cache = self.__dict__.setdefault("_loop_ro", {})
+        if h in cache:
+            return cache[h]
+        ok = True
+        for n in self.loops()[h]:
+            blk = self.blocks[n]
+            if blk.get("cleanup"):
+                continue
+            for st in blk["stmts"]:
+                if st["k"] in ("assign", "setdiscr") and any(e["k"] == "deref" for e in st["lhs"]["p"]):
+                    ok = False
+                if st["k"] == "assign" and st["rv"]["k"] == "agg" and st["rv"].get("agg") == "closure":
+                    # a closure built in the loop: its captures by &mut are writes when it is called
+                    for o in st["rv"]["ops"]:
+                        if o["k"] in ("copy", "move") and not o["place"]["p"] and self.ltypes.get(o["place"]["l"], "").startswith("&mut"):
+                            ok = False
+            t = blk["term"]
+            if t["k"] == "call":
+                if any(e["k"] == "deref" for e in t["dest"]["p"]):
+                    ok = False
+                name = norm_callee(t)
+                m = method_name(name)
+                for aty in t.get("argtys", []):
+                    if aty.startswith("&mut") and m not in ("next", "next_back"):
+                        ok = False
+        cache[h] = ok
+        return ok
+
     def innermost_loop(self, n):
         best = None
         for h, body in self.loops().items():
@@ -1136,8 +1167,9 @@ class Walker:
                     for l in body.loop_assigned_locals(n):
                         ev.env[l] = T("loopvar", n, l, body.name_of(l))
                     # anything may have been written inside: forget decided memory atoms
-                    known = {k: v for k, v in known.items() if not self._mem_atom(k)}
-                    ev.mem = {}
+                    if not body.loop_readonly(n):
+                        known = {k: v for k, v in known.items() if not self._mem_atom(k)}
+                        ev.mem = {}
                     exits = body.loop_exits(n)
                     seen_t = []
                     for (src, tgt) in exits:
@@ -1204,7 +1236,8 @@ class Walker:
                 res = ev.mk_call(name, args, t, n)
                 mut_roots = []
                 for a, aty, at in zip(t["args"], t.get("argtys", []), args):
-                    if aty.startswith("&mut"):
+                    if aty.startswith("&mut") and not (isinstance(at, tuple) and at and at[0] == "iter" and re.match(r"&mut (std::iter::Rev<)?std::slice::Iter<", aty)):
+                        # (stepping a by-reference slice iterator writes the iterator, not the slice)
                         mut_roots.append(at)
                     if isinstance(at, tuple) and at and at[0] == "closure":
                         for cap, m in zip(at[2], at[3]):
